@@ -356,13 +356,6 @@ def contracts(reg):
     reg.attr_models[("BytesIOContent", "nbytes")] = a_nbytes
     reg.ext_models[("const", "os.SEEK_END")] = VInt(2)
     reg.ext_models[("const", "io.SEEK_END")] = VInt(2)
-    # further ways to take the size of the file (all follow symlinks like open() does, except lstat)
-    reg.method_models[("Path", "stat")] = m_stat2
-    reg.method_models[("Path", "lstat")] = m_lstat
-    reg.attr_models[("StatResult", "st_size")] = a_st_size2
-    reg.ext_models["os.path.getsize"] = x_getsize
-    reg.ext_models["os.stat"] = x_os_stat
-    reg.ext_models["os.lstat"] = x_os_lstat
     out = []
     from contracts import C07
     for c in C07.contracts(reg):
@@ -370,6 +363,15 @@ def contracts(reg):
             c.assumed = True
             c.note = "verified by the C07 pack"
             out.append(c)
+    # (after C07.contracts: it re-installs the shared read_file models)
+    reg.method_models[("BytesIO", "seek")] = m_seek2
+    # further ways to take the size of the file (all follow symlinks like open() does, except lstat)
+    reg.method_models[("Path", "stat")] = m_stat2
+    reg.method_models[("Path", "lstat")] = m_lstat
+    reg.attr_models[("StatResult", "st_size")] = a_st_size2
+    reg.ext_models["os.path.getsize"] = x_getsize
+    reg.ext_models["os.stat"] = x_os_stat
+    reg.ext_models["os.lstat"] = x_os_lstat
 
     # ---- read_file: refuses exactly files larger than max_file_size (0 or negative disables), before opening
     def the_path(c):
